@@ -146,7 +146,11 @@ func (v *Vol) Reopen() (fs filesystem.FileSystem, err error) {
 }
 
 func OpenKind(kind string, d *memdev.Dev, size, start, sector int64, ro bool) (fs filesystem.FileSystem, err error) {
-	b := file.New(d, ro)
+	return OpenBackend(kind, file.New(d, ro), size, start, sector)
+}
+
+// OpenBackend opens a filesystem of the given kind over any backend.
+func OpenBackend(kind string, b backend.Storage, size, start, sector int64) (fs filesystem.FileSystem, err error) {
 	if p := Catch(func() {
 		switch kind {
 		case "fat12":
@@ -422,6 +426,14 @@ func WalkSkip(fs filesystem.FileSystem, limit int64, skip func(path string) bool
 						n.Err = "readlink: " + err.Error()
 					}
 					n.Link = t
+				} else if info, err := e.Info(); err == nil {
+					// iso9660 / squashfs expose the target through FileInfo.Sys()
+					switch st := info.Sys().(type) {
+					case *iso9660.StatT:
+						n.Link = st.LinkTarget
+					case *squashfs.StatT:
+						n.Link = st.LinkTarget
+					}
 				}
 			case e.Type().IsRegular():
 				n.Kind = "file"
